@@ -64,6 +64,18 @@ pub fn gen_case(t: &mut Tape) -> Case {
     Case { mat: base.mat, cfg, input: base.input, strat }
 }
 
+pub fn gen_case_ml(t: &mut Tape) -> Case {
+    let c = super::c13::gen_case(t);
+    let mut strat = c.strat;
+    if let Strat::Reader { capacity, .. } = &mut strat {
+        *capacity = None;
+    }
+    if t.chance(1, 5) {
+        strat = Strat::HeapLimit { chunks: super::c03::gen_chunks(t), limit: c.input.len() + 1 + t.below(64) };
+    }
+    Case { mat: Mat::Re { pat: c.pat }, cfg: c.cfg, input: c.input, strat }
+}
+
 fn is_prefix(a: &[Event], b: &[Event]) -> bool {
     a.len() <= b.len() && a == &b[..a.len()]
 }
@@ -236,6 +248,9 @@ pub fn run(pc: &PropCtx) {
     );
     let cases = pc.tier.pick(20_000, 400_000);
     pc.run_tape("line_mode_faults", cases, (256, 3000), gen_case, check);
+    let ml_cases = pc.tier.pick(15_000, 300_000);
+    pc.run_tape("multi_line_faults", ml_cases, (128, 1500), gen_case_ml, check);
+    pc.require_class("multi_line_faults:multi_line", ml_cases as u64 / 4);
     pc.require_class("line_mode_faults:stop_at_context", cases as u64 / 20);
     pc.require_class("line_mode_faults:stop_at_break", cases as u64 / 40);
     pc.require_class("line_mode_faults:read_faults_injected", cases as u64 / 10);
